@@ -61,6 +61,10 @@ def corpus_cases(r):
         magic = data[0] + 256 * data[1]
         if magic in (62135, 21150, 21280):   # Dropbox-encrypted / Graal (JVM) files: bodies are not decoded by xdis
             continue
+        if data[0:1] == b"0":
+            # PyPy 3.2 marshals variable names as 's' byte strings, which xdis turns into text (co_varnames is read with
+            # bytes_for_s=False); what PyPy 3.2 itself loads is not decidable here (no such interpreter) and the model keeps bytes.
+            continue
         hl = header_len(data)
         if hl is None:
             continue
